@@ -309,9 +309,9 @@ Fixpoint infer_loop (fuel : nat) (least_slack : bool) (now pid : Z) (w : worker)
       end
   end.
 
-Definition st_total (st : cw_state) : Z := fold_right (fun m acc => total_qlen m + acc) 0 st.
-(* each iteration drops a queue entry or extracts >= 1 request (batch sizes >= 1) *)
-Definition infer_fuel (st : cw_state) (e : esq) : nat := S (length e + Z.to_nat (st_total st)).
+(* each iteration drops a queue entry or extracts >= 1 request (batch sizes >= 1), and requests never arrive during the loop *)
+Definition st_total (st : cw_state) : nat := fold_right (fun m acc => (length (m_tasks m) + acc)%nat) O st.
+Definition infer_fuel (st : cw_state) (e : esq) : nat := S (length e + st_total st).
 
 Definition infer_worker (least_slack : bool) (now pid : Z) (w : worker) (st : cw_state) (acc : list batch)
   : result (cw_state * list batch) :=
